@@ -1,0 +1,8 @@
+//go:build !verif
+
+// Package vhook provides a scheduling hook for verification builds. Without the
+// "verif" build tag it does nothing.
+package vhook
+
+// Jitter is a no-op unless the program is built with -tags verif
+func Jitter(site string, idx int) {}
